@@ -235,6 +235,8 @@ func checkC08(c *Ctx) {
 	c08CloseAlwaysCloses(c)
 	c08NoLockAcrossWait(c, cfns)
 	c08StopBeforeJoin(c)
+	c08RequestCancellable(c)
+	c06DisconnectObserved(c) // server side of the same clause: a stream handler ends when its peer is gone, whatever context function is configured
 	c08GoroutineScope(c)
 	c08ArmsCloseAlike(c)
 	c08Loops(c, cfns)
